@@ -14,18 +14,20 @@ RULE = ('cases = role name X (1-6 abstract letters: ASCII letters, digits, punct
         'without the keys (string and non-string scalar values) x credentials with 0-6 roles (duplicates, case variants), '
         'an empty list, or no roles entry x the check alone, under not, or inside a random expression with other role '
         'checks. Non-trivial = the reference allows for some role of the credentials AND X is spelled in a different '
-        'case than the matching role, or denies although a role shares a prefix with X; distinct = distinct (rule, target, creds). Credentials are passed as a dict, a RequestContext or its policy-values mapping. Stratum `list-form`: list-of-lists rules whose role names contain spaces / parentheses. Stratum `overlap`: two requests evaluate the same rule at the same time (every single pre-emption of one by the other, deterministic scheduler). Stratum `sequence`: one credentials object whose roles list is mutated in place (append, remove, item assignment, clear) between consecutive calls. Stratum `case-keys`: 2-3 `%(key)s` placeholder keys that differ only in letter case (each present in the target with its own value or absent), in %(k)s / prefix%(k)s / %(k1)s%(k2)s form, plus literal role names that differ only in letter case, parsed one after the other in the same process, side by side as rules of one rule set, and together in one random expression; every decision is compared with the abstract-letter reference in which a target key is the exact string (another case = another key). Stratum `nested-target`: placeholder keys that contain dots (2-5 segments) x targets that hold, next to or instead of that exact key, nested mappings (depth 1-3, also lists of mappings and mapping values under keys that themselves contain dots) whose dotted path spells the placeholder key - only the nested mapping (the referenced key is absent: deny), the exact key AND the nested mapping with different role names (X is the value under the exact key), only the exact dotted key - in %(k)s / prefix%(k)s / %(k1)s%(k2)s form, alone, under not and in random expressions with literal role checks, credentials as dict / RequestContext / policy-values mapping, plus histories in which ONE target object and ONE credentials object are reused across consecutive calls while the exact key, the nested value and the roles list are changed in place; the reference reads the target as a plain mapping of exact keys (a nested mapping is just a value under its own key).')
+        'case than the matching role, or denies although a role shares a prefix with X; distinct = distinct (rule, target, creds). Credentials are passed as a dict, a RequestContext or its policy-values mapping. Stratum `list-form`: list-of-lists rules whose role names contain spaces / parentheses. Stratum `overlap`: two requests evaluate the same rule at the same time (every single pre-emption of one by the other, deterministic scheduler). Stratum `sequence`: one credentials object whose roles list is mutated in place (append, remove, item assignment, clear) between consecutive calls. Stratum `case-keys`: 2-3 `%(key)s` placeholder keys that differ only in letter case (each present in the target with its own value or absent), in %(k)s / prefix%(k)s / %(k1)s%(k2)s form, plus literal role names that differ only in letter case, parsed one after the other in the same process, side by side as rules of one rule set, and together in one random expression; every decision is compared with the abstract-letter reference in which a target key is the exact string (another case = another key). Stratum `nested-target`: placeholder keys that contain dots (2-5 segments) x targets that hold, next to or instead of that exact key, nested mappings (depth 1-3, also lists of mappings and mapping values under keys that themselves contain dots) whose dotted path spells the placeholder key - only the nested mapping (the referenced key is absent: deny), the exact key AND the nested mapping with different role names (X is the value under the exact key), only the exact dotted key - in %(k)s / prefix%(k)s / %(k1)s%(k2)s form, alone, under not and in random expressions with literal role checks, credentials as dict / RequestContext / policy-values mapping, plus histories in which ONE target object and ONE credentials object are reused across consecutive calls while the exact key, the nested value and the roles list are changed in place; the reference reads the target as a plain mapping of exact keys (a nested mapping is just a value under its own key). Stratum `other-entries`: credentials that carry, besides or instead of `roles` (absent, empty, not holding X, holding X), 1-3 OTHER entries whose values are role-like lists or strings naming X in some letter case - service_roles, service_user_id, user_id, project_id, domain_id, system_scope, is_admin, `role`, `roles` in another letter case, ... - given as a dict, a RequestContext (roles=, service_roles=, ...) or its policy-values mapping, decided through Enforcer.enforce and by calling the parsed check itself; the reference reads only the names in the `roles` list.')
 ASSUMPTIONS = ['letters with context-dependent or one-to-many case mappings are excluded, as the quantifier says',
                'a stray % outside %(key)s is excluded (statement is about %(key)s placeholders)',
                'credentials roles are a list of strings',
                'target keys are exact strings: a placeholder key spelled in another letter case references another key (stratum case-keys)',
-               'a placeholder key that contains dots references the target key with exactly that spelling (what %-formatting with a mapping does); data nested below other keys is not "the referenced key" (stratum nested-target)']
+               'a placeholder key that contains dots references the target key with exactly that spelling (what %-formatting with a mapping does); data nested below other keys is not "the referenced key" (stratum nested-target)',
+               'the role list of the credentials is the entry under the exact key `roles`; entries under any other key (service_roles, `Roles`, `role`, ...) are not the role list (stratum other-entries)']
 LEVEL_TEXT = ('Seeded sampling of the (role name, form, target, credentials, context) space with an oracle that is '
               'independent of any case-folding routine; the space is infinite, so sampling with a structured generator is the level.')
 LEVEL_NOTE = 'trusted: the letter table is verified at start-up to be one-to-one under str.lower/str.upper'
 PLAN = {'quick': dict(shards=4, wall=120), 'thorough': dict(shards=16, wall=400)}
 MIN = {'evaluations': 5000, 'allow_decisions': 500, 'deny_decisions': 500, 'case_variant_matches': 100, 'sequence_decisions': 1000, 'non_dict_credentials': 1000, 'list_form_role_names': 200, 'overlapping_evaluations': 100, 'case_variant_key_decisions': 5000, 'case_variant_keys_told_apart': 500,
-       'nested_target_decisions': 2000, 'nested_value_would_decide_otherwise': 300, 'nested_target_sequence_decisions': 500}
+       'nested_target_decisions': 2000, 'nested_value_would_decide_otherwise': 300, 'nested_target_sequence_decisions': 500,
+       'other_entries_decisions': 8000, 'other_entry_names_x_roles_do_not': 2500}
 ANCHORS = ['oslo_policy._checks:RoleCheck.__call__', 'oslo_policy.policy:Enforcer.enforce']
 REQUIRED_ANCHORS = ['oslo_policy.policy:Enforcer.enforce']
 N = {'quick': 100000, 'thorough': 3000000}
@@ -659,6 +661,126 @@ def check_nested_sequence(ctx, real, rnd):
         ctx.case(['nested-sequence', rule, start, steps], nontrivial=True, stratum='nested-target-sequence')
 
 
+CTX_LIST_KEYS = ['service_roles']
+CTX_TEXT_KEYS = ['service_user_id', 'service_project_id', 'service_user_domain_id', 'user_id', 'project_id', 'domain_id',
+                 'user_domain_id', 'project_domain_id', 'system_scope', 'is_admin', 'user_name', 'service_user_name']
+DICT_ONLY_KEYS = ['role', 'roles_', 'user_roles', 'role_names', 'groups', 'system', 'token_roles', 'admin_roles']
+
+
+def other_key(rnd, rep):
+    """A credentials key that is NOT the exact string `roles`."""
+    if rep != 'dict' or rnd.random() < 0.5:
+        return rnd.choice(CTX_LIST_KEYS) if rnd.random() < 0.45 else rnd.choice(CTX_TEXT_KEYS)
+    if rnd.random() < 0.4:
+        while True:                                 # `roles` in another letter case
+            k = ''.join(ch.upper() if rnd.random() < 0.5 else ch for ch in 'roles')
+            if k != 'roles':
+                return k
+    return rnd.choice(DICT_ONLY_KEYS)
+
+
+def build_creds(case, rep=None):
+    """Fresh credentials object of an other-entries case: `roles` (absent when None) plus the other entries."""
+    rep = rep or case['rep']
+    roles, extras = case['roles'], case['extras']
+    if rep == 'dict':
+        creds = {k: (list(v) if isinstance(v, list) else v) for k, v in extras.items()}
+        if roles is not None:
+            creds['roles'] = list(roles)
+        return creds
+    from oslo_context import context
+    kw = {k: (list(v) if isinstance(v, list) else v) for k, v in extras.items()}
+    c = context.RequestContext(roles=None if roles is None else list(roles), overwrite=False, **kw)
+    return c if rep == 'ctx' else c.to_policy_values()
+
+
+def run_other_entries(ctx, real, case):
+    """Decide the rule of an other-entries case through Enforcer.enforce and by calling the parsed check itself, each
+    with freshly built credentials.  Returns False after reporting the first mismatch."""
+    policy, enf = real
+    shown = dict(case['extras'])
+    if case['roles'] is not None:
+        shown['roles'] = case['roles']
+    for via in ('enforce', 'check'):
+        try:
+            rules = policy.Rules.from_dict({'p': case['rule']})
+            enf.set_rules(rules)
+            if via == 'enforce':
+                got = bool(enf.enforce('p', dict(case['target']), build_creds(case)))
+            else:
+                # the check object is handed a mapping (what enforce hands it): a RequestContext goes as its policy values
+                got = bool(rules['p'](dict(case['target']), build_creds(case, 'pv' if case['rep'] == 'ctx' else None), enf))
+        except Exception as e:
+            got = 'EXC:' + type(e).__name__
+        ctx.count('other_entries_decisions')
+        ctx.count('allow_decisions' if got is True else 'deny_decisions' if got is False else 'exceptions')
+        if got != case['want']:
+            ctx.violation(classify(got, case['want'], shown), case,
+                          {'rule': case['rule'], 'target': case['target'], 'credentials_given_as': case['rep'], 'decided_through': via,
+                           'roles': case['roles'], 'other_entries': case['extras'], 'expected': case['want'], 'observed': got})
+            return False
+    return True
+
+
+def check_other_entries(ctx, real, rnd):
+    """Credentials that carry, besides or instead of `roles`, other entries whose values are role-like lists or strings
+    naming X.  Only the names in the `roles` list count; no `roles` entry -> deny."""
+    pool = distinct_pool(rnd, 3)
+    nleaves = 1 if rnd.random() < 0.65 else 2
+    target, leaves = {}, []
+    for li in range(nleaves):
+        x = rnd.choice(pool)
+        form = rnd.choice(['lit', 'lit', 'ph', 'pre'])
+        if form == 'lit':
+            text, ids = spell(rnd, x), x
+        elif form == 'ph':
+            target['k%d' % li] = spell(rnd, x)
+            text, ids = '%%(k%d)s' % li, x
+        else:
+            p = rnd.choice(pool)
+            target['k%d' % li] = spell(rnd, x)
+            text, ids = spell(rnd, p) + '%%(k%d)s' % li, p + x
+        if text.endswith(')') or text.startswith('(') or text.lower() in ('and', 'or', 'not'):
+            text, ids = 'z' + text + 'z', (('L', 5),) + ids + (('L', 5),)
+        leaves.append((text, ids))
+    xs = [ids for _, ids in leaves]
+    rep = rnd.choice(['dict', 'dict', 'ctx', 'ctx', 'pv'])
+    mode = rnd.random()
+    if mode < 0.2:
+        roles = None                                # no roles entry (a RequestContext then reports an empty list)
+    elif mode < 0.35:
+        roles = []
+    elif mode < 0.75:                               # roles that do not hold any X
+        roles = [r for r in (rnd.choice(pool) for _ in range(rnd.randint(1, 3))) if r not in xs] or []
+    else:
+        roles = [rnd.choice(pool + xs) for _ in range(rnd.randint(1, 3))]
+    extras, names_x = {}, False
+    for _ in range(rnd.randint(1, 3)):
+        k = other_key(rnd, rep)
+        named = rnd.choice(xs) if rnd.random() < 0.8 else rnd.choice(pool)
+        names_x = names_x or named in xs
+        if k in CTX_LIST_KEYS or (rep == 'dict' and rnd.random() < 0.6):
+            v = [spell(rnd, named)]
+            if rnd.random() < 0.4:
+                v.insert(rnd.randint(0, 1), spell(rnd, rnd.choice(pool)))
+        else:
+            v = spell(rnd, named)
+        extras[k] = v
+    if nleaves == 1:
+        ast = rnd.choice([('leaf', 0), ('leaf', 0), ('not', ('leaf', 0)), ('and', [('leaf', 0), ('const', True)])])
+    else:
+        ast = expr.random_ast(rnd, 2, nleaves, p_const=0.05)
+    truth = [roles is not None and any(r == ids for r in roles) for ids in xs]
+    case = dict(other_entries=True, rule=expr.spell(expr.to_tokens(ast, lambda i: 'role:' + leaves[i][0])), target=target,
+                roles=None if roles is None else [spell(rnd, r) for r in roles], extras=extras, rep=rep, want=expr.ev(ast, truth))
+    if names_x and not all(truth):
+        ctx.count('other_entry_names_x_roles_do_not')
+    if rep != 'dict':
+        ctx.count('non_dict_credentials')
+    if run_other_entries(ctx, real, case):
+        ctx.case(['other-entries', case['rule'], target, case['roles'], extras, rep], nontrivial=True, stratum='other-entries')
+
+
 def run(ctx):
     ctx.reserve(0.8)          # the strata that come last (overlapping operations) keep a fifth of the wall budget
     self_check()
@@ -676,6 +798,8 @@ def run(ctx):
             check_sequence(ctx, (policy, enf), ctx.rnd)
         if i % 50 == 0:
             check_list_form(ctx, (policy, enf), ctx.rnd)
+        if i % 5 == 2:
+            check_other_entries(ctx, (policy, enf), ctx.rnd)
         if i % 10 == 0:
             check_case_keys(ctx, (policy, enf), ctx.rnd)
         if i % 4 == 1:
@@ -707,6 +831,8 @@ def replay(ctx, case):
         return run_case_keys(ctx, (policy, enf), case)
     if case.get('nested_sequence'):
         return run_nested_sequence(ctx, (policy, enf), case)
+    if case.get('other_entries'):
+        return run_other_entries(ctx, (policy, enf), case)
     if case.get('overlap'):
         from pv.mon import sched
         try:
